@@ -16,6 +16,7 @@ import Homonim.Model.Bands
 import Homonim.Model.FS
 import Homonim.Model.Sched
 import Homonim.Model.Cli
+import Homonim.Model.FuseImage
 open Homonim
 
 def ints (ts : List String) : Option (List Int) := ts.mapM String.toInt?
@@ -302,6 +303,29 @@ def handleMerge (toks : List String) : String :=
     | _, _ => "bad-args"
   | _ => "bad-args"
 
+/-- fuseimg <model> <kh> <kw> <ups> <n0> <n1> Sr(o p n) Sc Rr Rc S <src vals> R <ref vals> → corrected source pixels -/
+def handleFuseImg (toks : List String) : String :=
+  match toks with
+  | ms :: kh :: kw :: us :: n0 :: n1 :: rest =>
+    let ups : Option Resampling := match us with
+      | "nearest" => some .nearest | "bilinear" => some .bilinear | "average" => some .average | _ => none
+    match parseModel ms, kh.toNat?, kw.toNat?, ups, parseRat n0, parseRat n1, ints (rest.take 12), rest.drop 12 with
+    | some model, some kh, some kw, some ups, some n0, some n1, some [a, b, c, d, e, f, g, h, i, j, k, l], "S" :: vals =>
+      let sr : Axis := ⟨a, b, c⟩; let sc : Axis := ⟨d, e, f⟩; let rr : Axis := ⟨g, h, i⟩; let rc : Axis := ⟨j, k, l⟩
+      let sT := vals.takeWhile (· ≠ "R")
+      let rT := (vals.dropWhile (· ≠ "R")).drop 1
+      match parseGrid sT, parseGrid rT with
+      | some sa, some ra =>
+        if sa.size ≠ (c * f).toNat || ra.size ≠ (i * l).toNat then "bad-args" else
+        let mk (arr : Array (Option Rat)) (nr nc : Int) : ImgO := fun r cc =>
+          if 0 ≤ r ∧ r < nr ∧ 0 ≤ cc ∧ cc < nc then arr.getD (r.toNat * nc.toNat + cc.toNat) none else none
+        let p : ImagePair := ⟨sr, sc, rr, rc, mk sa c f, mk ra i l⟩
+        " ".intercalate ((List.range c.toNat).flatMap fun (r : Nat) => (List.range f.toNat).map fun (cc : Nat) =>
+          showORat (p.corrected model kh kw n0 n1 ups r cc))
+      | _, _ => "bad-args"
+    | _, _, _, _, _, _, _, _ => "bad-args"
+  | _ => "bad-args"
+
 def handle (toks : List String) : String :=
   match toks with
   | "blocks1" :: rest =>
@@ -377,6 +401,7 @@ def handle (toks : List String) : String :=
       s!"{if r.1.northUp then 1 else 0} {r.1.crs} {if r.2.northUp then 1 else 0} {r.2.crs}"
     | _ => "bad-args"
   | "fit" :: rest => handleFit rest
+  | "fuseimg" :: rest => handleFuseImg rest
   | "merge" :: rest => handleMerge rest
   | ["procres", sa, ra, req] =>
     match sa.toInt?, ra.toInt? with
